@@ -1,7 +1,13 @@
-import ScVerif.C03.Model
+import ScVerif.C03.Lemmas
 /-!
-# C03 — invariant: for every registered subscriber, its view followed by the events still owed to it
-(in commit order) is the store.  Preserved by every step of an `ordered` run.
+# C03 — invariants and their preservation by every step
+
+`Inv ord c`:
+* (all schedules) the bus holds each live subscriber exactly once and no unregistered one; a listener copy never
+  names an unregistered subscriber; pending ids are distinct; NO MISS: every commit since a live subscriber's
+  subscribe step has been handed to its stage or is still owed to it;
+* (`ord = true`: schedules whose steps satisfy `okStep`) for every live subscriber, its raw view followed by its
+  pending stage followed by the events still owed to it (in commit order) is the store.
 -/
 set_option linter.unusedSectionVars false
 set_option linter.unusedVariables false
@@ -10,57 +16,127 @@ open ScVerif.C02 (setAt setAt_same setAt_other)
 
 variable {M : Type} [DecidableEq M]
 
-theorem copies_none {s : Nat} {p : Pub M} (h : p.stage = none) : copies s p = [p.ev] := by
-  simp [copies, h]
-
-theorem copies_staged {s : Nat} {p : Pub M} {rem : List Nat} (h : p.stage = some rem) :
-    copies s p = List.replicate (rem.count s) p.ev := by
-  simp [copies, h, List.filter_beq]
-
-theorem pubs_split {c : Cfg M} {k : Nat} {p : Pub M} {post : List (Pub M)} (h : c.pubs.drop k = p :: post) :
-    c.pubs = c.pubs.take k ++ p :: post := by
-  rw [← h, List.take_append_drop]
-
-theorem foldl_applyEv_stable (v : Nat → Option M) (l : List (Event M))
-    (h : ∀ e, e ∈ l → v e.id = e.new) : l.foldl applyEv v = v := by
-  induction l with
-  | nil => rfl
-  | cons e l ih =>
-    have he : applyEv v e = v := by
-      funext j
-      simp only [applyEv, setAt]
-      split
-      · next hj => rw [hj]; exact (h e (List.mem_cons_self)).symm
-      · rfl
-    rw [List.foldl_cons, he]
-    exact ih (fun e' he' => h e' (List.mem_cons_of_mem _ he'))
-
-structure Inv (c : Cfg M) : Prop where
-  view : ∀ s, (c.subs s).registered = true → (inflight c s).foldl applyEv (c.subs s).view = c.store
-  lis : ∀ s, c.listeners.count s = if (c.subs s).registered = true then 1 else 0
+structure Inv (ord : Bool) (c : Cfg M) : Prop where
+  view : ord = true → ∀ s, (c.subs s).live = true →
+    ((c.subs s).pending ++ inflight c s).foldl applyEv (c.subs s).rawView = c.store
+  chain : ord = true → ∀ s, (c.subs s).live = true → (c.subs s).lossy = true →
+    chainOK (c.subs s).rawView ((c.subs s).pending ++ inflight c s)
+  lisLive : ∀ s, (c.subs s).live = true → c.listeners.count s = 1
+  lisUnreg : ∀ s, (c.subs s).registered = false → c.listeners.count s = 0
   rem : ∀ p, p ∈ c.pubs → ∀ rem, p.stage = some rem → ∀ s, (c.subs s).registered = false → rem.count s = 0
+  uniq : ∀ s, (ids (c.subs s).pending).Nodup
+  nomiss : ∀ s, (c.subs s).live = true → ∀ k, (c.subs s).subAt ≤ k → k < c.nextSeq →
+    k ∈ (c.subs s).got ∨ k ∈ (inflight c s).map (·.seq)
 
-theorem Inv.no_listeners {c : Cfg M} (h : Inv c) (he : c.listeners.isEmpty = true) (s : Nat) :
-    (c.subs s).registered = false := by
-  have := h.lis s
-  rw [List.isEmpty_iff.mp he] at this
-  cases hr : (c.subs s).registered
+theorem live_registered {sb : Sub M} (h : sb.live = true) : sb.registered = true ∧ sb.cancelled = false := by
+  simp only [Sub.live, Bool.and_eq_true, Bool.not_eq_true'] at h
+  exact h
+
+theorem Inv.no_listeners {ord : Bool} {c : Cfg M} (h : Inv ord c) (he : c.listeners.isEmpty = true) (s : Nat) :
+    (c.subs s).live = false := by
+  cases hl : (c.subs s).live
   · rfl
-  · rw [hr] at this; simp at this
+  · have := h.lisLive s hl
+    rw [List.isEmpty_iff.mp he] at this
+    simp at this
 
-theorem Inv.init (s₀ : Nat → Option M) (progs : Nat → List (WOp M)) (uo : Nat → Bool) :
-    Inv (initCfg s₀ progs uo) := by
-  refine ⟨?_, ?_, ?_⟩
-  · intro s hs; simp [initCfg] at hs
-  · intro s; simp [initCfg]
+theorem Inv.init (ord : Bool) (s₀ : Nat → Option M) (progs : Nat → List (WOp M)) (opts : Nat → SubOpts M) :
+    Inv ord (initCfg s₀ progs opts) := by
+  refine ⟨?_, ?_, ?_, ?_, ?_, ?_, ?_⟩
+  · intro _ s hs; simp [initCfg, Sub.live] at hs
+  · intro _ s hs; simp [initCfg, Sub.live] at hs
+  · intro s hs; simp [initCfg, Sub.live] at hs
+  · intro s _; simp [initCfg]
   · intro p hp; simp [initCfg] at hp
+  · intro s; simp [initCfg, ids]
+  · intro s hs; simp [initCfg, Sub.live] at hs
+
+/-! ### collect -/
+
+theorem count_collect_live {c : Cfg M} {s : Nat} (hl : (c.subs s).live = true) :
+    (c.listeners.filter (fun s => !(c.subs s).cancelled)).count s = c.listeners.count s := by
+  apply List.count_filter
+  simp [(live_registered hl).2]
+
+theorem count_collect_zero {c : Cfg M} {s : Nat} (h : c.listeners.count s = 0) :
+    (c.listeners.filter (fun s => !(c.subs s).cancelled)).count s = 0 := by
+  rw [List.count_eq_zero] at h ⊢
+  intro hm
+  exact h (List.mem_filter.mp hm).1
+
+/-- Ending a publication (with or without `collect`) keeps everything that does not mention `pubs`. -/
+theorem finish_lis {ord : Bool} {c : Cfg M} (h : Inv ord c) (p : Pub M) (pubs' : List (Pub M)) :
+    (∀ s, ((c.finishPub p pubs').subs s).live = true → (c.finishPub p pubs').listeners.count s = 1) ∧
+    (∀ s, ((c.finishPub p pubs').subs s).registered = false → (c.finishPub p pubs').listeners.count s = 0) := by
+  constructor
+  · intro s hs
+    show (if p.gc then _ else _ : List Nat).count s = 1
+    have hs' : (c.subs s).live = true := hs
+    split
+    · rw [count_collect_live hs']; exact h.lisLive s hs'
+    · exact h.lisLive s hs'
+  · intro s hs
+    show (if p.gc then _ else _ : List Nat).count s = 0
+    split
+    · exact count_collect_zero (h.lisUnreg s hs)
+    · exact h.lisUnreg s hs
 
 /-! ### commit -/
 
-theorem Inv.popOp {c : Cfg M} (h : Inv c) (t : Nat) (rest : List (WOp M)) (b : Bool) : Inv (c.popOp t rest b) :=
-  ⟨h.view, h.lis, h.rem⟩
+theorem Inv.popOp {ord : Bool} {c : Cfg M} (h : Inv ord c) (t : Nat) (rest : List (WOp M)) (b : Bool) :
+    Inv ord (c.popOp t rest b) :=
+  ⟨h.view, h.chain, h.lisLive, h.lisUnreg, h.rem, h.uniq, h.nomiss⟩
 
-theorem Inv.stepCommit {c : Cfg M} (h : Inv c) (t : Nat) : Inv (stepCommit c t) := by
+/-- a commit that appends a publication whose single copy reaches every live subscriber -/
+theorem Inv.commitPub {ord : Bool} {c : Cfg M} (h : Inv ord c) (t : Nat) (rest : List (WOp M)) (e : Event M)
+    (p : Pub M) (hev : p.ev = e) (hseq : e.seq = c.nextSeq)
+    (hcop : ∀ s, (c.subs s).live = true → copies s p = [e])
+    (hrem : ∀ rem, p.stage = some rem → ∀ s, (c.subs s).registered = false → rem.count s = 0)
+    (hadd : e.isAdd = true → c.store e.id = none)
+    (lock' : Option Nat) :
+    Inv ord { c.popOp t rest true with
+      store := applyEv c.store e, nextSeq := c.nextSeq + 1, lock := lock', pubs := c.pubs ++ [p] } := by
+  refine ⟨?_, ?_, h.lisLive, h.lisUnreg, ?_, h.uniq, ?_⟩
+  · intro hord s hs
+    show ((c.subs s).pending ++ List.flatMap (copies s) (c.pubs ++ [p])).foldl applyEv (c.subs s).rawView
+      = applyEv c.store e
+    have := h.view hord s hs
+    unfold inflight at this
+    rw [List.flatMap_append, ← List.append_assoc, List.foldl_append, this]
+    simp [hcop s hs]
+  · intro hord s hs hl
+    show chainOK (c.subs s).rawView ((c.subs s).pending ++ List.flatMap (copies s) (c.pubs ++ [p]))
+    have hv := h.view hord s hs
+    have hc := h.chain hord s hs hl
+    unfold inflight at hv hc
+    rw [List.flatMap_append, ← List.append_assoc, chainOK_append, hv]
+    refine ⟨hc, ?_⟩
+    rw [List.flatMap_cons, List.flatMap_nil, List.append_nil, hcop s hs]
+    simp only [chainOK, and_true]
+    exact hadd
+  · intro q hq rem hrem' s hs
+    have hq' : q ∈ c.pubs ++ [p] := hq
+    rw [List.mem_append] at hq'
+    rcases hq' with hq' | hq'
+    · exact h.rem q hq' rem hrem' s hs
+    · simp at hq'; subst hq'; exact hrem rem hrem' s hs
+  · intro s hs k hk1 hk2
+    show k ∈ (c.subs s).got ∨ k ∈ (List.flatMap (copies s) (c.pubs ++ [p])).map (·.seq)
+    have hk2' : k < c.nextSeq + 1 := hk2
+    by_cases hk : k < c.nextSeq
+    · rcases h.nomiss s hs k hk1 hk with h1 | h1
+      · exact Or.inl h1
+      · right
+        unfold inflight at h1
+        rw [List.flatMap_append, List.map_append, List.mem_append]
+        exact Or.inl h1
+    · right
+      have : k = c.nextSeq := by omega
+      rw [List.flatMap_append, List.map_append, List.mem_append]
+      right
+      simp [hcop s hs, hseq, this]
+
+theorem Inv.stepCommit {ord : Bool} {c : Cfg M} (h : Inv ord c) (t : Nat) : Inv ord (stepCommit c t) := by
   unfold ScVerif.C03.stepCommit
   simp only []
   split
@@ -71,21 +147,9 @@ theorem Inv.stepCommit {c : Cfg M} (h : Inv c) (t : Nat) : Inv (stepCommit c t) 
       split
       · exact h.popOp t rest false
       · next v hv =>
-        refine ⟨?_, h.lis, ?_⟩
-        · intro s hs
-          show (List.flatMap (copies s) (c.pubs ++ [_])).foldl applyEv (c.subs s).view = applyEv c.store _
-          rw [List.flatMap_append, List.foldl_append]
-          have := h.view s hs
-          unfold inflight at this
-          rw [this]
-          simp [copies]
-        · intro p hp rem hrem s hs
-          show rem.count s = 0
-          have hp' : p ∈ c.pubs ++ [⟨t, ⟨id, some v, c.nextSeq⟩, none, false⟩] := hp
-          rw [List.mem_append] at hp'
-          rcases hp' with hp' | hp'
-          · exact h.rem p hp' rem hrem s hs
-          · simp at hp'; rw [hp'] at hrem; simp at hrem
+        exact h.commitPub t rest ⟨id, some v, (c.store id).isNone, c.nextSeq⟩ _ rfl rfl
+          (fun s _ => copies_none rfl) (fun rem hrem => by simp at hrem)
+          (by intro hadd; simpa using hadd) c.lock
     · next _ id p rest _ =>
       split
       · exact h.popOp t rest false
@@ -93,43 +157,34 @@ theorem Inv.stepCommit {c : Cfg M} (h : Inv c) (t : Nat) : Inv (stepCommit c t) 
         split
         · split
           · next hemp =>
-            -- no listener at all: nobody is registered
-            refine ⟨?_, h.lis, h.rem⟩
-            intro s hs
-            have := h.no_listeners hemp s
-            have hs' : (c.subs s).registered = true := hs
-            rw [this] at hs'; cases hs'
-          · next hne =>
-            refine ⟨?_, h.lis, ?_⟩
+            -- no listener at all: nobody is live
+            refine ⟨?_, ?_, h.lisLive, h.lisUnreg, h.rem, h.uniq, ?_⟩
+            · intro _ s hs
+              have := h.no_listeners hemp s
+              have hs' : (c.subs s).live = true := hs
+              rw [this] at hs'; cases hs'
+            · intro _ s hs
+              have := h.no_listeners hemp s
+              have hs' : (c.subs s).live = true := hs
+              rw [this] at hs'; cases hs'
             · intro s hs
-              show (List.flatMap (copies s) (c.pubs ++ [_])).foldl applyEv (c.subs s).view = applyEv c.store _
-              rw [List.flatMap_append, List.foldl_append]
-              have := h.view s hs
-              unfold inflight at this
-              rw [this]
-              have hc : c.listeners.count s = 1 := by
-                have := h.lis s
-                have hs' : (c.subs s).registered = true := hs
-                rw [hs'] at this; simpa using this
-              simp [copies_staged (s := s) (p := (⟨t, ⟨id, none, c.nextSeq⟩, some c.listeners, true⟩ : Pub M)) rfl, hc]
-            · intro q hq rem hrem s hs
-              show rem.count s = 0
-              have hq' : q ∈ c.pubs ++ [⟨t, ⟨id, none, c.nextSeq⟩, some c.listeners, true⟩] := hq
-              rw [List.mem_append] at hq'
-              rcases hq' with hq' | hq'
-              · exact h.rem q hq' rem hrem s hs
-              · simp at hq'
-                rw [hq'] at hrem
-                simp at hrem
-                rw [← hrem]
-                have := h.lis s
-                have hs' : (c.subs s).registered = false := hs
-                rw [hs'] at this; simpa using this
+              have := h.no_listeners hemp s
+              have hs' : (c.subs s).live = true := hs
+              rw [this] at hs'; cases hs'
+          · next hne =>
+            exact h.commitPub t rest ⟨id, none, false, c.nextSeq⟩ ⟨t, ⟨id, none, false, c.nextSeq⟩, some c.listeners, true, false⟩
+              rfl rfl
+              (fun s hs => by
+                rw [copies_staged (rem := c.listeners) rfl, h.lisLive s hs]; rfl)
+              (fun rem hrem s hs => by
+                simp at hrem; rw [← hrem]; exact h.lisUnreg s hs)
+              (by intro hadd; cases hadd)
+              (some t)
         · exact h.popOp t rest false
 
 /-! ### snapshot -/
 
-theorem Inv.stepSnap {c : Cfg M} (h : Inv c) (k : Nat) : Inv (stepSnap c k) := by
+theorem Inv.stepSnap {ord : Bool} {c : Cfg M} (h : Inv ord c) (k : Nat) : Inv ord (stepSnap c k) := by
   unfold ScVerif.C03.stepSnap
   split
   · exact h
@@ -140,10 +195,15 @@ theorem Inv.stepSnap {c : Cfg M} (h : Inv c) (k : Nat) : Inv (stepSnap c k) := b
     · next hstage =>
       split
       · next hemp =>
-        refine ⟨?_, h.lis, ?_⟩
-        · intro s hs
+        have hfl := finish_lis h p (c.pubs.take k ++ post)
+        refine ⟨?_, ?_, hfl.1, hfl.2, ?_, h.uniq, ?_⟩
+        · intro _ s hs
           have := h.no_listeners hemp s
-          have hs' : (c.subs s).registered = true := hs
+          have hs' : (c.subs s).live = true := hs
+          rw [this] at hs'; cases hs'
+        · intro _ s hs
+          have := h.no_listeners hemp s
+          have hs' : (c.subs s).live = true := hs
           rw [this] at hs'; cases hs'
         · intro q hq rem hrem s hs
           apply h.rem q ?_ rem hrem s hs
@@ -153,23 +213,30 @@ theorem Inv.stepSnap {c : Cfg M} (h : Inv c) (k : Nat) : Inv (stepSnap c k) := b
           rcases hq' with hq' | hq'
           · exact Or.inl hq'
           · exact Or.inr (List.mem_cons_of_mem _ hq')
-      · next hne =>
-        refine ⟨?_, h.lis, ?_⟩
         · intro s hs
-          have hv := h.view s hs
-          unfold inflight at hv ⊢
-          show (List.flatMap (copies s) (c.pubs.take k ++ { p with stage := some c.listeners } :: post)).foldl applyEv
-              (c.subs s).view = c.store
-          rw [hsplit] at hv
-          have hc : c.listeners.count s = 1 := by
-            have := h.lis s
-            have hs' : (c.subs s).registered = true := hs
-            rw [hs'] at this; simpa using this
+          have := h.no_listeners hemp s
+          have hs' : (c.subs s).live = true := hs
+          rw [this] at hs'; cases hs'
+      · next hne =>
+        have hinfl : ∀ s, (c.subs s).live = true →
+            List.flatMap (copies s) (c.pubs.take k ++ { p with stage := some c.listeners } :: post)
+              = inflight c s := by
+          intro s hs
+          unfold inflight
+          conv => rhs; rw [hsplit]
           have e1 : copies s ({ p with stage := some c.listeners } : Pub M) = [p.ev] := by
-            rw [copies_staged (rem := c.listeners) rfl, hc]; rfl
+            rw [copies_staged (rem := c.listeners) rfl, h.lisLive s hs]; rfl
           have e2 : copies s p = [p.ev] := copies_none hstage
-          simp only [List.flatMap_append, List.flatMap_cons, e1, e2] at hv ⊢
-          exact hv
+          simp only [List.flatMap_append, List.flatMap_cons, e1, e2]
+        refine ⟨?_, ?_, h.lisLive, h.lisUnreg, ?_, h.uniq, ?_⟩
+        · intro hord s hs
+          show ((c.subs s).pending ++ List.flatMap (copies s) _).foldl applyEv (c.subs s).rawView = c.store
+          rw [hinfl s hs]
+          exact h.view hord s hs
+        · intro hord s hs hl
+          show chainOK (c.subs s).rawView ((c.subs s).pending ++ List.flatMap (copies s) _)
+          rw [hinfl s hs]
+          exact h.chain hord s hs hl
         · intro q hq rem hrem s hs
           show rem.count s = 0
           have hq' : q ∈ c.pubs.take k ++ { p with stage := some c.listeners } :: post := hq
@@ -179,200 +246,11 @@ theorem Inv.stepSnap {c : Cfg M} (h : Inv c) (k : Nat) : Inv (stepSnap c k) := b
           · rw [hq'] at hrem
             simp at hrem
             rw [← hrem]
-            have := h.lis s
-            have hs' : (c.subs s).registered = false := hs
-            rw [hs'] at this; simpa using this
+            exact h.lisUnreg s hs
           · exact h.rem q (by rw [hsplit]; exact List.mem_append_right _ (List.mem_cons_of_mem _ hq')) rem hrem s hs
-
-/-! ### deliver -/
-
-theorem view_snoc (sb : Sub M) (e : Event M) :
-    ({ sb with evs := sb.evs ++ [e] } : Sub M).view = applyEv sb.view e := by
-  simp [Sub.view, List.foldl_append]
-
-theorem flatMap_copies_nil {s : Nat} {l : List (Pub M)}
-    (h : l.all (fun q => (copies s q).isEmpty) = true) : l.flatMap (copies s) = [] := by
-  induction l with
-  | nil => rfl
-  | cons q l ih =>
-    simp only [List.all_cons, Bool.and_eq_true] at h
-    rw [List.flatMap_cons, ih h.2, List.isEmpty_iff.mp h.1]; rfl
-
-theorem Inv.stepDeliver {c : Cfg M} (h : Inv c) (k : Nat) (hok : okStep c (.deliver k) = true) :
-    Inv (stepDeliver c k) := by
-  unfold ScVerif.C03.stepDeliver
-  simp only [okStep] at hok
-  split
-  · exact h
-  · next p post hdrop =>
-    have hsplit := pubs_split hdrop
-    rw [hdrop] at hok
-    simp only [] at hok
-    split
-    · exact h
-    · exact h
-    · next s rem hstage =>
-      rw [hstage] at hok
-      simp only [] at hok
-      have hpre := flatMap_copies_nil hok
-      -- the views: common to both outcomes
-      have hview : ∀ (p' : List (Pub M)) s',
-          (∀ s'', p'.flatMap (copies s'') = (List.replicate (rem.count s'') p.ev)) →
-          (setAt c.subs s { c.subs s with evs := (c.subs s).evs ++ [p.ev] } s').registered = true →
-          (List.flatMap (copies s') (c.pubs.take k ++ (p' ++ post))).foldl applyEv
-            (setAt c.subs s { c.subs s with evs := (c.subs s).evs ++ [p.ev] } s').view = c.store := by
-        intro p' s' hp' hs'
-        by_cases hss : s' = s
-        · subst hss
-          simp only [setAt_same] at hs' ⊢
-          have hv := h.view s' hs'
-          unfold inflight at hv
-          rw [hsplit] at hv
-          simp only [List.flatMap_append, List.flatMap_cons, hpre, List.nil_append,
-            copies_staged hstage, List.count_cons_self, List.replicate_succ, List.cons_append,
-            List.foldl_cons] at hv
-          rw [view_snoc]
-          simp only [List.flatMap_append, hpre, List.nil_append, hp']
-          exact hv
-        · rw [setAt_other _ _ hss] at hs' ⊢
-          have hv := h.view s' hs'
-          unfold inflight at hv
-          rw [hsplit] at hv
-          have hcount : (s :: rem).count s' = rem.count s' := by
-            rw [List.count_cons]
-            have : (s == s') = false := by simpa using (Ne.symm hss)
-            simp [this]
-          simp only [List.flatMap_append, List.flatMap_cons, copies_staged hstage, hcount] at hv
-          simp only [List.flatMap_append, hp']
-          exact hv
-      have hrem : ∀ q, q ∈ c.pubs.take k ++ post → ∀ rem', q.stage = some rem' → ∀ s',
-          (setAt c.subs s { c.subs s with evs := (c.subs s).evs ++ [p.ev] } s').registered = false →
-          rem'.count s' = 0 := by
-        intro q hq rem' hrem' s' hs'
-        have hreg : (c.subs s').registered = false := by
-          by_cases hss : s' = s
-          · subst hss; simpa using hs'
-          · rwa [setAt_other _ _ hss] at hs'
-        apply h.rem q ?_ rem' hrem' s' hreg
-        rw [hsplit]
-        rw [List.mem_append] at hq ⊢
-        rcases hq with hq | hq
-        · exact Or.inl hq
-        · exact Or.inr (List.mem_cons_of_mem _ hq)
-      have hlis : ∀ s', c.listeners.count s' =
-          if (setAt c.subs s { c.subs s with evs := (c.subs s).evs ++ [p.ev] } s').registered = true then 1 else 0 := by
-        intro s'
-        by_cases hss : s' = s
-        · subst hss; simpa using h.lis s'
-        · rw [setAt_other _ _ hss]; exact h.lis s'
-      simp only []
-      split
-      · next hemp =>
-        have hremnil : rem = [] := List.isEmpty_iff.mp hemp
-        refine ⟨?_, hlis, ?_⟩
-        · intro s' hs'
-          have := hview [] s' (by intro s''; simp [hremnil]) hs'
-          simp only [List.nil_append] at this
-          exact this
-        · intro q hq rem' hrem' s' hs'
-          exact hrem q hq rem' hrem' s' hs'
-      · next hne =>
-        refine ⟨?_, hlis, ?_⟩
-        · intro s' hs'
-          have := hview [{ p with stage := some rem }] s'
-            (by intro s''; simp [copies_staged (s := s'') (p := ({ p with stage := some rem } : Pub M)) rfl]) hs'
-          simp only [List.singleton_append] at this
-          exact this
-        · intro q hq rem' hrem' s' hs'
-          show rem'.count s' = 0
-          have hq' : q ∈ c.pubs.take k ++ { p with stage := some rem } :: post := hq
-          rw [List.mem_append, List.mem_cons] at hq'
-          rcases hq' with hq' | hq' | hq'
-          · exact hrem q (List.mem_append_left _ hq') rem' hrem' s' hs'
-          · rw [hq'] at hrem'
-            simp at hrem'
-            rw [← hrem']
-            have hreg : (c.subs s').registered = false := by
-              have hs2 : (setAt c.subs s { c.subs s with evs := (c.subs s).evs ++ [p.ev] } s').registered = false := hs'
-              by_cases hss : s' = s
-              · subst hss; simpa using hs2
-              · rwa [setAt_other _ _ hss] at hs2
-            have := h.rem p (by rw [hsplit]; simp) (s :: rem) hstage s' hreg
-            rw [List.count_cons] at this
-            omega
-          · exact hrem q (List.mem_append_right _ hq') rem' hrem' s' hs'
-
-/-! ### subscribe -/
-
-theorem Inv.stepSub {c : Cfg M} (h : Inv c) (s : Nat) (hok : okStep c (.sub s) = true) : Inv (stepSub c s) := by
-  unfold ScVerif.C03.stepSub
-  simp only []
-  split
-  · exact h
-  · next hcond =>
-    have hunreg : (c.subs s).registered = false := by
-      cases hr : (c.subs s).registered
-      · rfl
-      · simp [hr] at hcond
-    simp only [okStep] at hok
-    rw [List.all_eq_true] at hok
-    refine ⟨?_, ?_, ?_⟩
-    · intro s' hs'
-      by_cases hss : s' = s
-      · subst hss
-        show (List.flatMap (copies s') c.pubs).foldl applyEv (setAt c.subs s' _ s').view = c.store
-        simp only [setAt_same, Sub.view, List.foldl_nil]
-        apply foldl_applyEv_stable
-        intro e he
-        rw [List.mem_flatMap] at he
-        obtain ⟨p, hp, hep⟩ := he
-        cases hst : p.stage with
-        | none =>
-          rw [copies_none hst] at hep
-          simp at hep
-          subst hep
-          have := hok p hp
-          simpa [hst] using this
-        | some rem =>
-          rw [copies_staged hst, h.rem p hp rem hst s' hunreg] at hep
-          simp at hep
-      · show (List.flatMap (copies s') c.pubs).foldl applyEv (setAt c.subs s _ s').view = c.store
-        have hs'' : (c.subs s').registered = true := by
-          have : (setAt c.subs s _ s').registered = true := hs'
-          rwa [setAt_other _ _ hss] at this
-        rw [setAt_other _ _ hss]
-        exact h.view s' hs''
-    · intro s'
-      show (c.listeners ++ [s]).count s' = if (setAt c.subs s _ s').registered = true then 1 else 0
-      by_cases hss : s' = s
-      · subst hss
-        have := h.lis s'
-        rw [hunreg] at this
-        simp at this
-        simp [List.count_append, this]
-      · rw [setAt_other _ _ hss, List.count_append, h.lis s']
-        have : (s == s') = false := by simpa using (Ne.symm hss)
-        simp [List.count_cons, this]
-    · intro p hp rem hrem s' hs'
-      have hs'' : (setAt c.subs s { c.subs s with registered := true, base := c.store, evs := [], subAt := c.nextSeq } s').registered = false := hs'
-      by_cases hss : s' = s
-      · subst hss; simp at hs''
-      · rw [setAt_other _ _ hss] at hs''
-        exact h.rem p hp rem hrem s' hs''
-
-theorem Inv.step {c : Cfg M} (h : Inv c) (a : Act) (hok : okStep c a = true) : Inv (step c a) := by
-  cases a with
-  | commit t => exact h.stepCommit t
-  | snap k => exact h.stepSnap k
-  | deliver k => exact h.stepDeliver k hok
-  | sub s => exact h.stepSub s hok
-
-theorem Inv.run {c : Cfg M} (h : Inv c) (sched : List Act) (hord : ordered c sched = true) :
-    Inv (run c sched) := by
-  induction sched generalizing c with
-  | nil => exact h
-  | cons a rest ih =>
-    simp only [ordered, Bool.and_eq_true] at hord
-    exact ih (h.step a hord.1) hord.2
+        · intro s hs k' hk1 hk2
+          show k' ∈ (c.subs s).got ∨ k' ∈ (List.flatMap (copies s) _).map (·.seq)
+          rw [hinfl s hs]
+          exact h.nomiss s hs k' hk1 hk2
 
 end ScVerif.C03
